@@ -185,6 +185,11 @@ def check_k(mode):
                     'kill() was called after the body returned but ThreadTerminationError was raised (%r); events %r' % (exc_events, ev), rep))
       if 'finished-end' not in ev:
         out.append(('K:%s:handler-cut-short' % mode, 'kill() after the body returned cut the finish handler short; events %r' % (ev,), rep))
+    elif kr is not None and bs is not None and kr < bs and be is not None and not exc_events:
+      # kill() had returned before the body began, yet the body ran from start to end and nothing was ever raised in the
+      # thread: the request was lost (neither "prevented the body" nor "raised in it")
+      out.append(('K:%s:kill-lost' % mode, 'kill() returned before the body began; the body ran to its end and no '
+                  'ThreadTerminationError was raised in the thread; events %r' % (ev,), rep))
     elif kc is not None and bs is not None and kc > bs and (be is None or kc < be):
       # kill while the body runs: the error may only appear in that thread (body or, through the documented
       # check-then-raise window, its handlers); nothing else to demand
@@ -297,6 +302,12 @@ def scenario_t(position, duration, after):
         time.sleep(8.0)
 
       nodes = [first, h.PhaseGroup(main=[timed_mon], teardown=[other_mon])]     # (teardown still runs after the timeout)
+    elif position == 'nested_td':
+      # the timed phase sits in the main of a group that is itself a teardown node: teardown work goes on after a timeout
+      def nested_next(test):
+        log.append(('nested-next', time.monotonic()))
+
+      nodes = [first, h.PhaseGroup(main=[other], teardown=[h.PhaseGroup(main=[timed, nested_next], teardown=[td])])]
     elif position == 'plain':
       nodes = [first, timed, other]
     elif position == 'main':
@@ -437,7 +448,9 @@ def check_t(cfg):
         out.append(('T:%s:no-timeout' % tag, 'body ran past its deadline but outcome is %s' % v['outcome'], rep))
       if 'plug-teardown' not in log:
         out.append(('T:%s:no-plug-teardown' % tag, 'plug tearDown did not run after the timeout', rep))
-      if position in ('main', 'teardown') and 'teardown' not in log:
+      if position == 'nested_td' and 'nested-next' not in log:
+        out.append(('T:%s:teardown-work-dropped' % tag, 'the phase after the timed-out one in a group nested in a teardown did not run', rep))
+      if position in ('main', 'teardown', 'nested_td') and 'teardown' not in log:
         out.append(('T:%s:no-teardown' % tag, 'group teardown did not run after the timeout', rep))
       if position == 'main' and 'other' in log:
         out.append(('T:%s:main-continued' % tag, 'main phases continued after a timeout', rep))
@@ -467,7 +480,7 @@ def t_configs(tier):
     cfgs += [(pos, 9.5, 'none'), (pos, 'never', 'none')]
   cfgs += [('plain', 9.999, 'fail'), ('plain', 25.0, 'measure'), ('main', 25.0, 'measure'), ('plain', 9.5, 'raise'), ('main', 9.5, 'raise'),
            ('monitored', 'never', 'none'), ('main', 'never', 'repeat2'), ('plain', 6.0, 'repeat_ok'),
-           ('main', 'never', 'diagraise'), ('main', 'never', 'profiled')]
+           ('main', 'never', 'diagraise'), ('main', 'never', 'profiled'), ('nested_td', 'never', 'none')]
   if tier == 'thorough':
     cfgs += [('plain', 10.5, 'measure'), ('teardown', 25.0, 'fail'), ('main', 9.999, 'measure')]
   return cfgs
